@@ -95,6 +95,14 @@ def run(ctx):
   overrides_new = '__new__' in proxy.methods
   uses_new = any(isinstance(c, ast.Call) and u(c.func).endswith('.__new__') for c in walk_local(au.node))
   ok = not zero or overrides_new or uses_new
+  overrides_init = '__init__' in proxy.methods
+  rerun = [c for c in ctor if (c.args or c.keywords)] if not overrides_new else []
+  if ctor and (not overrides_init or rerun) and not uses_new:
+    ctx.fail('C17.constructible', pcon,
+             'the proxy is created by calling `%s` %s: the original class\'s constructor is re-run on e.args, which fails (TypeError instead of the '
+             'original exception) for every class whose constructor signature differs from its args, e.g. __init__(self, resource, limit) calling '
+             'super().__init__(message)' % (u(ctor[0]), 'with the original\'s __init__ not overridden' if not overrides_init else 'with arguments'),
+             au.loc(ctor[0]), instance='ctor-rerun')
   ctx.check(ok, 'C17.constructible', pcon, 'the proxy is created without calling the original class\'s constructor with no arguments',
             'the proxy is created with `%s()`: only __init__ is overridden, so the original class\'s __new__ runs with no arguments and raises '
             'TypeError for classes whose __new__ requires arguments (exception groups, user classes): the caller receives a TypeError instead of the original exception'
